@@ -2,6 +2,7 @@
 CONSTANTS
   Ns = {4}
   Vals = {1, 2}
+  Ops <- AllOps
   Recycle = FALSE
   Deep = FALSE
 INVARIANTS TypeOK WellFormed RemovedDetached Observable Terminates
